@@ -192,7 +192,7 @@ def run_case(case, cpu_budget=120.0, record_args=False, delay=None, workdir=None
     mode = case.get("mode") or "serial"
     obs = {"i": case.get("i"), "opt": case["opt"], "kind": kind, "mode": mode, "minmax": spec.get("minmax", "min"),
            "cfg_class": case.get("cfg_class", "base"), "strict": tasks.is_strict_class(spec),
-           "workers": case.get("workers"), "viol": {}, "stats": {}, "outcome": None}
+           "workers": case.get("workers"), "viol": {}, "stats": {}, "outcome": None, "prior": len(case.get("prior") or [])}
     calls_file = None
     if mode == "process":
         fd, calls_file = tempfile.mkstemp(prefix="pvcalls.", dir=workdir)
@@ -212,6 +212,16 @@ def run_case(case, cpu_budget=120.0, record_args=False, delay=None, workdir=None
         if calls_file:
             os.unlink(calls_file)
         return obs
+    for j, psp in enumerate(case.get("prior") or []):
+        prid = f"{rid}-prior{j}"
+        tasks.register_run(prid, psp)
+        try:
+            from .relational import optimize_plain
+            optimize_plain(opt, tasks.build_task(psp, prid), mode="serial", workers=2, cpu_budget=cpu_budget)
+        except Exception:
+            pass
+        finally:
+            tasks.unregister_run(prid)
     before_cfg = canon(cfg)
     before_task = canon(task)
     old = signal.signal(signal.SIGVTALRM, _on_alarm)
